@@ -20,16 +20,40 @@ def ref_amp(uf, hin, hout, n_loss, vin, vout):
     return ref_fock.amp(uf, fi, fo)
 
 
-def check_circuit(recipe, env, maxph, acc):
-    c, r = build(recipe, env)
+def build_late(recipe, env):
+    """Same circuit, but the Simulator is created on the still-empty circuit and every component and
+    herald is added afterwards through the same object (the simulator must follow the circuit)."""
+    from ..circuit_ops import apply_impl
+    from .c02 import make_sub
+    c = lw.Circuit(recipe["n"])
+    sim = emu.Simulator(c)
+    for op in recipe["ops"]:
+        op = tuple(op)
+        if op[0] == "her":
+            c.herald(op[1], op[2], op[3])
+        elif op[0] == "add":
+            c.add(make_sub(op[1], env)[0], op[2], group=op[3])
+        else:
+            if op[0] == "sw":
+                op = ("sw", tuple(tuple(x) for x in op[1]))
+            c2 = apply_impl(c, op, env)
+            assert c2 is c
+    return c, sim
+
+
+def check_circuit(recipe, env, maxph, acc, late=False):
+    if late:
+        c, sim_late = build_late(recipe, env)
+    else:
+        c, r = build(recipe, env)
     uf = c.U_full
     h = c.heralds
     hin, hout = h["input"], h["output"]
     n_loss = uf.shape[0] - c.n_modes
     nv = c.input_modes
-    sim = emu.Simulator(c)
-    name = recipe["name"]
-    base = {"recipe": recipe, "seed": env.seed}
+    sim = sim_late if late else emu.Simulator(c)
+    name = recipe["name"] + (":late" if late else "")
+    base = {"recipe": recipe, "seed": env.seed, "simulator_created_before_circuit_was_built": late}
     acc.state(name)
     for k in range(0, maxph + 1):
         ins = ref_fock.basis(nv, k)
@@ -119,6 +143,7 @@ def run(tier, seed):
         acc = kernel.Acc()
         for rc in recipes:
             check_circuit(rc, env, maxph[rc["n"]], acc)
+            check_circuit(rc, env, min(2, maxph[rc["n"]]), acc, late=True)
         return acc
 
     acc = kernel.pmap(shard_fn, kernel.interleave(fam, kernel.NPROC * 2))
@@ -141,4 +166,4 @@ def replay(w, acc):
     case = w["case"]
     env = Env(case.get("seed", 0))
     rc = case["recipe"]
-    check_circuit(rc, env, 3 if rc["n"] < 4 else 2, acc)
+    check_circuit(rc, env, 3 if rc["n"] < 4 else 2, acc, late=bool(case.get("simulator_created_before_circuit_was_built")))
